@@ -41,6 +41,7 @@ enum State {
     BogusName,
 }
 
+#[cfg_attr(html5ever_verif, derive(Debug))]
 pub(super) struct CharRefTokenizer {
     state: State,
     is_consumed_in_attribute: bool,
